@@ -119,6 +119,7 @@ func (c *Collection) StartDCPFeed(
 		feed.events.push(&sgbucket.FeedEvent{Opcode: sgbucket.FeedOpEndBackfill})
 	}
 
+	verifPoint("feed.beforeregister", args.ID)
 	if args.Dump {
 		feed.events.push(nil) // push an eof
 	} else {
@@ -276,6 +277,7 @@ func (feed *dcpFeed) run() {
 
 	for {
 		if event := feed.events.pull(); event != nil {
+			verifPoint("feed.deliver", feed.args.ID, event.Cas)
 			feed.callback(*event)
 			if event.Cas > feed.lastCas {
 				feed.lastCas = event.Cas
